@@ -151,6 +151,10 @@ def install():
             idx = list(range(*frames.indices(n))) if isinstance(frames, slice) else [int(x) for x in frames]
             _register(val)
             _log('Slice' if isinstance(frames, slice) else 'IndexList', i=i + 1, idx=idx)
+        elif isinstance(frames, (int, np.integer)) and hasattr(val, 'frac_coords'):
+            k = _grid(np.asarray(val.frac_coords, dtype=float))
+            _log('Frame', i=i + 1, t=int(frames) % len(self), how='index', ret=np.where(k == OFFGRID, OFFGRID, np.mod(k, N)).tolist(),
+                 sp=[_code(_state['sp'], getattr(x, 'symbol', str(x))) for x in val.species])
         else:
             _log('ReadOnly', i=i + 1, what='structure')
     wrap_method('__getitem__', h_getitem)
